@@ -33,4 +33,26 @@ prop("C16", "Label ordering is a total order equal to CBOR's deterministic key o
      outside="text labels longer than the stated bound (length classes 23/24/255/256 are decided by "
              "mirsym where registered); cmp_canonical relies on the serialiser stub",
      assumptions=[])
+
+
+def _jl(name):
+    def f(tier):
+        import joblists
+        return getattr(joblists, name)(tier)
+    return f
+
+
+prop("C09", "Message structures: accepted iff they match their CDDL, slots map to fields",
+     mirsym={"jobs": _jl("c09"), "budget_s": {"quick": 300, "thorough": 2400}},
+     bounds={
+         "quick": "top-level arrays of arity 0..6 with every CBOR kind in every slot; nested arrays "
+                  "bounded by a total of 10 array elements per input (one nested signature/recipient); "
+                  "header maps with at most 1 entry in total per input (C08 explores headers); nesting "
+                  "depth 4; integers: all of [-2^64, 2^64-1]; byte strings: symbolic 64-bit length",
+         "thorough": "arity 0..7, 14 array elements and 2 map entries per input, depth 5, text <= 2",
+     },
+     outside="longer nested lists and larger header maps than the stated budgets; bytes inside "
+             "protected headers are related to their parse only through the parser stub",
+     assumptions=[])
+
 NOT_APPLICABLE = {}
